@@ -149,3 +149,71 @@ func keys(m map[int64]bool) []int64 {
 	}
 	return pred.SortIDs(out)
 }
+
+// runScopes: conditions attached through Scopes. A reusable handle carries 1..4 scopes added by separate calls; two
+// chains are derived from it, each adding one scope of its own; the one derived first is executed last. Each selects
+// exactly the rows of the handle's scopes AND its own.
+func runScopes(c *core.Ctx, st pred.Style, table []pred.Row) {
+	r := c.R
+	if len(table) < 2 {
+		return
+	}
+	load(table)
+	scope := func(u *pred.Unit) func(*gorm.DB) *gorm.DB {
+		return func(d *gorm.DB) *gorm.DB {
+			q, args := u.Query(H.DB)
+			return d.Where(q, args...)
+		}
+	}
+	nb := r.Range(1, 4)
+	var base []*pred.Unit
+	db := H.DB.Session(&gorm.Session{}).Model(&pred.Row{})
+	var descs []string
+	for i := 0; i < nb; i++ {
+		u := pred.RandUnit(r, st)
+		base = append(base, u)
+		db = db.Scopes(scope(u))
+		descs = append(descs, "Scopes(Where "+u.Desc+")")
+	}
+	h := db.Session(&gorm.Session{})
+	ua, ub := pred.RandUnit(r, st), pred.RandUnit(r, st)
+	qa := h.Scopes(scope(ua))
+	qb := h.Scopes(scope(ub))
+	want := func(own *pred.Unit) []int64 {
+		var out []int64
+		for i := range table {
+			ok := own.Pos.Eval(&table[i]) == pred.T
+			for _, u := range base {
+				ok = ok && u.Pos.Eval(&table[i]) == pred.T
+			}
+			if ok {
+				out = append(out, table[i].ID)
+			}
+		}
+		return out
+	}
+	var problems []string
+	var gb, ga []int64
+	if err := qb.Order("id").Pluck("id", &gb).Error; err != nil {
+		problems = append(problems, "second-derived chain: "+err.Error())
+	} else if w := want(ub); !pred.IDsEqual(gb, w) {
+		problems = append(problems, fmt.Sprintf("the chain derived second (own scope: %s) selected %v, reference %v", ub.Desc, gb, w))
+	}
+	var n int64
+	if err := qa.Count(&n).Error; err != nil {
+		problems = append(problems, "first-derived chain: "+err.Error())
+	} else if w := want(ua); n != int64(len(w)) {
+		h.Scopes(scope(ua)).Order("id").Pluck("id", &ga)
+		problems = append(problems, fmt.Sprintf("the chain derived first and executed last (own scope: %s) counted %d rows, reference %v (its sibling's scope: %s)", ua.Desc, n, w, ub.Desc))
+	}
+	c.Inc("scope_sibling_pairs")
+	if len(problems) > 0 {
+		rows := []string{}
+		for _, rw := range table {
+			rows = append(rows, rw.String())
+		}
+		c.Violation("scopes/siblings", map[string]interface{}{"chain": "h := db.Model(&Row{})." + strings.Join(descs, ".") + ".Session(&Session{}); qa := h.Scopes(A); qb := h.Scopes(B); qb.Pluck; qa.Count", "problems": problems, "table": rows})
+		return
+	}
+	c.Shape("scopes", nb, len(want(ua)) > 0, len(want(ub)) > 0)
+}
